@@ -186,8 +186,10 @@ struct Checker
     sq::viol(kind + "|" + role + "|" + obs, *replay, detail);
   }
 
-  template <typename W, typename T>
-  void wrapper(const W &w, const Expect<T> &e)
+  // every wrapper is observed through its AbstractArray<T> interface (FixedArrayView<T> has a private
+  // member called 'data' that hides AbstractArray<T>::data(), so view.data() does not even compile)
+  template <typename T>
+  void wrapper(const AbstractArray<T> &w, const Expect<T> &e)
   {
     struct Who
     {
@@ -288,5 +290,112 @@ struct Checker
     }
   }
 };
+
+
+// ------------------------------------------------------------------ generic driver
+// WorldT<T> provides:  static const std::vector<OpInfo> &ops();  bool apply(int opIndex);
+//                      void check(Checker &);  static const char *kind();
+struct OpInfo
+{
+  std::string name;  // printed in replays / samples
+  std::string cls;   // the same without slot numbers: crash signature context
+};
+
+template <template <typename> class WorldT, typename T>
+int run_history(const std::vector<int> &h, const std::string &replay, bool verbose)
+{
+  WorldT<T> w;
+  const std::vector<OpInfo> &ops = WorldT<T>::ops();
+  for (size_t i = 0; i < h.size(); i++) {
+    if (verbose)
+      printf("op %zu: %s\n", i, ops[h[i]].name.c_str());
+    if (!w.apply(h[i])) {
+      if (verbose)
+        printf("  (operation not enabled in this state)\n");
+      return sq::H_DISABLED;
+    }
+    if (verbose || i + 1 == h.size()) {
+      Checker c;
+      c.replay = &replay;
+      c.verbose = verbose;
+      c.mix(h[i]);
+      w.check(c);
+      if (i + 1 == h.size()) {
+        sq::stat("states");
+        sq::stat("traces");
+        sq::stat("transitions", (long long)h.size());
+        sq::stat("max_depth", (long long)h.size());
+        sq::outcome(c.digest);
+        if (h.size() >= 3 && vr::S().samples.size() < 6 && (h[0] + h[1] + h[2]) % 7 == 3)
+          sq::sample(replay + " = " + ops[h[0]].name + "; " + ops[h[1]].name + "; " + ops[h[2]].name + (h.size() > 3 ? "; ..." : ""));
+      }
+      if (verbose)
+        c.finish_replay();
+      if (c.violated)
+        return sq::H_VIOL;
+    }
+  }
+  if (h.empty()) {
+    sq::stat("states");
+    sq::stat("traces");
+  }
+  return sq::H_OK;
+}
+
+template <template <typename> class WorldT, typename T>
+void explore(const std::string &unit, int depth)
+{
+  const std::string tag = unit + "/" + TName<T>::s();
+  const int A = (int)WorldT<T>::ops().size();
+  const int nshards = 64;
+  vr::run_sharded(nshards, [&](int shard, long long resume_after) {
+    sq::shard_begin(tag, shard, resume_after);
+    sq::Explorer ex(A, depth);
+    ex.tag = tag;
+    ex.run = [](const std::vector<int> &h, const std::string &rp) { return run_history<WorldT, T>(h, rp, false); };
+    ex.sigctx = [](const std::vector<int> &h) {
+      return std::string(WorldT<T>::kind()) + "|crash during " + (h.empty() ? std::string("setup") : WorldT<T>::ops()[h.back()].cls);
+    };
+    ex.go(shard, nshards, resume_after);
+  });
+}
+
+template <template <typename> class WorldT>
+int unit_main(const std::string &unit, int argc, char **argv, int dq, int dt)
+{
+  vr::init(argc, argv);
+  const int A = (int)WorldT<int>::ops().size();
+  if (vr::replaying()) {
+    std::string r = vr::S().replay;
+    size_t c = r.find(':');
+    std::string tag = r.substr(0, c);
+    std::vector<int> h = sq::parse_ops(r.substr(c + 1));
+    for (int x : h)
+      if (x < 0 || x >= A) {
+        printf("bad op index %d\n", x);
+        return 2;
+      }
+    int res;
+    if (tag == unit + "/u8")
+      res = run_history<WorldT, uint8_t>(h, r, true);
+    else if (tag == unit + "/f64")
+      res = run_history<WorldT, double>(h, r, true);
+    else
+      res = run_history<WorldT, int>(h, r, true);
+    printf("result: %s\n", res == sq::H_OK ? "ok" : res == sq::H_DISABLED ? "history not enabled" : "VIOLATION");
+    vr::flush();
+    return vr::S().viols.empty() ? 0 : 1;
+  }
+  sq::make_scratch();
+  const int d = vr::thorough() ? dt : dq;
+  explore<WorldT, int>(unit, d);
+  if (!vr::deadline_passed())
+    explore<WorldT, uint8_t>(unit, d - 1);
+  if (!vr::deadline_passed())
+    explore<WorldT, double>(unit, d - 1);
+  sq::remove_scratch();
+  vr::note("alphabet " + std::to_string(A) + " operations; depth " + std::to_string(d) + " for int, " + std::to_string(d - 1) + " for uint8_t and double");
+  return vr::finish();
+}
 
 }  // namespace c11
